@@ -69,7 +69,19 @@ fn main() {
                     world::install_seq_hooks();
                     props::c02::run(tier)
                 }
+                "C09" => {
+                    world::install_seq_hooks();
+                    props::c09::run(tier)
+                }
+                "C13" => {
+                    world::install_seq_hooks();
+                    props::c13::run(tier)
+                }
                 "C14" => props::c14::run(tier),
+                "C07" => {
+                    world::install_seq_hooks();
+                    props::c07::run(tier)
+                }
                 "C08" => {
                     world::install_seq_hooks();
                     props::c08::run(tier)
@@ -143,7 +155,21 @@ fn main() {
                     world::install_seq_hooks();
                     props::c02::replay(&v)
                 }
+                "C09" => {
+                    world::install_seq_hooks();
+                    props::c09::replay(&v)
+                }
+                "C13" => {
+                    world::install_seq_hooks();
+                    props::c13::replay(&v)
+                }
                 "C14" => props::c14::replay(&v),
+                "C07" => {
+                    if v["engine"] != "E3-schedcheck" {
+                        world::install_seq_hooks();
+                    }
+                    props::c07::replay(&v)
+                }
                 "C08" => {
                     if v["engine"] != "E3-schedcheck" {
                         world::install_seq_hooks();
@@ -189,6 +215,7 @@ fn main() {
         "e3shard" => e3::shard_main(&args[2..], &|prop, tier| match prop {
             "C14" => props::c14::bodies(tier),
             "C06" => props::c06::bodies(tier),
+            "C07" => props::c07::bodies(tier),
             "C08" => props::c08::bodies(tier),
             "C05" => props::c05e3::bodies(tier),
             "C17" => props::c17e3::bodies(tier),
